@@ -257,6 +257,8 @@ class Taint:
             txt = c[1].lower()
             if "cpuid" in txt or "xgetbv" in txt:
                 return None
+            if not txt.strip() and i["type"] == "void":
+                return None     # empty template without outputs: a compiler barrier, computes nothing
             self.unknown.append((f.loc(i), "inline asm not modelled: %s" % c[1][:40]))
             return None
         name = c[1] if c[0] == "f" else None
